@@ -80,17 +80,14 @@ theorem inv_spawn {s : TS} (h : Inv s) {k : Nat} {kd : TKind} (hk : k < s.nx)
   have hnew : ∀ t, t ≠ s.nt → (s.spawn k kd).tasks t = s.tasks t := fun t ht => upd_other _ _ ht
   have hme : (s.spawn k kd).tasks s.nt = { xfer := k, kind := kd, phase := .created } := upd_same _ _ _
   have hxo : ∀ j, j ≠ k → (s.spawn k kd).xs j = s.xs j := fun j hj => upd_other _ _ hj
-  have hxk : (s.spawn k kd).xs k = (match kd with
-      | .queueRemotely => { s.xs k with rqSlot := some s.nt }
-      | _ => { s.xs k with ttSlot := some s.nt }) := upd_same _ _ _
   have hnt : (s.spawn k kd).nt = s.nt + 1 := rfl
   have hnx : (s.spawn k kd).nx = s.nx := rfl
-  have hkeep : (s.spawn k kd).xs k |>.locked = (s.xs k).locked ∧ ((s.spawn k kd).xs k).waitFor = (s.xs k).waitFor ∧
+  have hkeep : ((s.spawn k kd).xs k).locked = (s.xs k).locked ∧ ((s.spawn k kd).xs k).waitFor = (s.xs k).waitFor ∧
       ((s.spawn k kd).xs k).quiet = (s.xs k).quiet ∧ ((s.spawn k kd).xs k).removed = (s.xs k).removed ∧
       ((s.spawn k kd).xs k).st = (s.xs k).st := by
-    rw [hxk]; cases kd <;> simp
+    cases kd <;> simp [TS.spawn]
   have hslot_me : ((s.spawn k kd).xs k).slotOf kd = some s.nt := by
-    rw [hxk]; cases kd <;> simp [XT.slotOf]
+    cases kd <;> simp [TS.spawn, XT.slotOf]
   constructor
   · intro t ht
     rw [hnt] at ht
@@ -105,11 +102,11 @@ theorem inv_spawn {s : TS} (h : Inv s) {k : Nat} {kd : TKind} (hk : k < s.nx)
     · subst ht; rw [hme]; exact hslot_me
     · rw [hnew t ht] at hl ⊢
       by_cases hx : (s.tasks t).xfer = k
-      · rw [hx, hxk]
+      · rw [hx]
         have hs := h.single t hl
         rw [hx] at hs
         -- same slot class would contradict the free slot
-        cases kd <;> cases hkd : (s.tasks t).kind <;> simp only [XT.slotOf, hkd] at hs ⊢ <;>
+        cases kd <;> cases hkd : (s.tasks t).kind <;> simp only [XT.slotOf, hkd, TS.spawn, upd_same] at hs ⊢ <;>
           first
           | exact hs
           | (exfalso; exact slotFree_dead h hf hl hx (by simp [XT.slotOf, hkd]))
@@ -185,18 +182,18 @@ theorem inv_taskUpdate {s : TS} (h : Inv s) (t : Nat) (hl : (s.tasks t).live = t
       x'.locked = (s.xs (s.tasks t).xfer).locked ∧ x'.waitFor = (s.xs (s.tasks t).xfer).waitFor ∧
       x'.quiet = (s.xs (s.tasks t).xfer).quiet ∧ x'.removed = (s.xs (s.tasks t).xfer).removed) :
     Inv { s with tasks := upd s.tasks t tk', xs := upd s.xs (s.tasks t).xfer x' } := by
-  apply h.frame rfl rfl
+  refine Inv.frame h rfl rfl ?_ ?_ ?_
   · intro u hu
     by_cases e : u = t
     · subst e
       simp only [upd_same] at hu ⊢
       exact ⟨hl, htk.1, htk.2⟩
     · simp only [upd_other _ _ e] at hu ⊢
-      exact ⟨hu, rfl, rfl⟩
+      simp [hu]
   · intro k
     by_cases e : k = (s.tasks t).xfer
     · subst e; simp only [upd_same]; exact hx'
-    · simp only [upd_other _ _ e]; exact ⟨rfl, rfl, rfl, rfl, rfl, rfl⟩
+    · simp [upd_other _ _ e]
   · intro k hq
     by_cases e : k = (s.tasks t).xfer
     · exact absurd e.symm (h.quietDead k hq t hl)
@@ -206,14 +203,14 @@ theorem inv_taskUpdate {s : TS} (h : Inv s) (t : Nat) (hl : (s.tasks t).live = t
 theorem inv_taskOnly {s : TS} (h : Inv s) (t : Nat) (tk' : Task)
     (htk : tk'.xfer = (s.tasks t).xfer ∧ tk'.kind = (s.tasks t).kind) (hl : tk'.live = true → (s.tasks t).live = true) :
     Inv { s with tasks := upd s.tasks t tk' } := by
-  apply h.frame rfl rfl
+  refine Inv.frame h rfl rfl ?_ ?_ ?_
   · intro u hu
     by_cases e : u = t
     · subst e
       simp only [upd_same] at hu ⊢
       exact ⟨hl hu, htk.1, htk.2⟩
     · simp only [upd_other _ _ e] at hu ⊢
-      exact ⟨hu, rfl, rfl⟩
+      simp [hu]
   · intro k; exact ⟨rfl, rfl, rfl, rfl, rfl, rfl⟩
   · intro k _; rfl
 
@@ -227,8 +224,11 @@ theorem inv_taskStart {s : TS} (h : Inv s) (t : Nat) : Inv (step s (.taskStart t
   · rename_i hp
     have hl : (s.tasks t).live = true := live_phase.mpr (Or.inl hp)
     split
-    · exact inv_taskOnly h t _ ⟨rfl, rfl⟩ (fun hc => by simp [Task.live] at hc)
-    · apply inv_taskUpdate h t hl _ _ ⟨rfl, rfl⟩
+    · refine inv_taskOnly h t _ ?_ ?_
+      · exact ⟨rfl, rfl⟩
+      · intro hc; simp [Task.live] at hc
+    · refine inv_taskUpdate h t hl _ _ ?_ ?_
+      · exact ⟨rfl, rfl⟩
       split
       · exact bump_fields _
       · split <;> exact ⟨rfl, rfl, rfl, rfl, rfl, rfl⟩
@@ -240,10 +240,16 @@ theorem inv_taskEnd {s : TS} (h : Inv s) (t : Nat) (o : Outcome) : Inv (step s (
   · rename_i hp
     have hl : (s.tasks t).live = true := live_phase.mpr (Or.inr hp)
     split
-    · exact inv_taskOnly h t _ ⟨rfl, rfl⟩ (fun hc => by simp [Task.live] at hc)
+    · refine inv_taskOnly h t _ ?_ ?_
+      · exact ⟨rfl, rfl⟩
+      · intro hc; simp [Task.live] at hc
     · split
-      · exact inv_taskUpdate h t hl _ _ ⟨rfl, rfl⟩ ⟨rfl, rfl, rfl, rfl, rfl, rfl⟩
-      · exact inv_taskUpdate h t hl _ _ ⟨rfl, rfl⟩ ⟨rfl, rfl, rfl, rfl, rfl, rfl⟩
+      · refine inv_taskUpdate h t hl _ _ ?_ ?_
+        · exact ⟨rfl, rfl⟩
+        · exact ⟨rfl, rfl, rfl, rfl, rfl, rfl⟩
+      · refine inv_taskUpdate h t hl _ _ ?_ ?_
+        · exact ⟨rfl, rfl⟩
+        · split <;> exact ⟨rfl, rfl, rfl, rfl, rfl, rfl⟩
       · have := inv_taskUpdate h t hl (s.tasks t) (bump (if (s.xs (s.tasks t).xfer).st = .initializing then
             { s.xs (s.tasks t).xfer with
               st := (if (s.xs (s.tasks t).xfer).dir = .upload then .uploading else .downloading), rq := false, attempts := 0 }
@@ -252,82 +258,90 @@ theorem inv_taskEnd {s : TS} (h : Inv s) (t : Nat) (o : Outcome) : Inv (step s (
           funext i; by_cases hi : i = t <;> simp [upd, hi]
         rw [e] at this
         exact this
-      · exact inv_taskUpdate h t hl _ _ ⟨rfl, rfl⟩ (by split <;> exact ⟨rfl, rfl, rfl, rfl, rfl, rfl⟩)
-      · exact inv_taskUpdate h t hl _ _ ⟨rfl, rfl⟩ (by split <;> exact ⟨rfl, rfl, rfl, rfl, rfl, rfl⟩)
-      · exact inv_taskUpdate h t hl _ _ ⟨rfl, rfl⟩ (by split <;> exact ⟨rfl, rfl, rfl, rfl, rfl, rfl⟩)
+      · refine inv_taskUpdate h t hl _ _ ?_ ?_
+        · exact ⟨rfl, rfl⟩
+        · split <;> exact ⟨rfl, rfl, rfl, rfl, rfl, rfl⟩
+      · refine inv_taskUpdate h t hl _ _ ?_ ?_
+        · exact ⟨rfl, rfl⟩
+        · split <;> exact ⟨rfl, rfl, rfl, rfl, rfl, rfl⟩
+      · refine inv_taskUpdate h t hl _ _ ?_ ?_
+        · exact ⟨rfl, rfl⟩
+        · split <;> exact ⟨rfl, rfl, rfl, rfl, rfl, rfl⟩
   · exact h
+
+theorem inv_done_generic {s : TS} (h : Inv s) (t : Nat) (tk' : Task) (hdead' : tk'.live = false) (x' : XT)
+    (hkeep : x'.locked = (s.xs (s.tasks t).xfer).locked ∧ x'.waitFor = (s.xs (s.tasks t).xfer).waitFor ∧
+        x'.quiet = (s.xs (s.tasks t).xfer).quiet ∧ x'.removed = (s.xs (s.tasks t).xfer).removed ∧
+        x'.st = (s.xs (s.tasks t).xfer).st)
+    (hslot : ∀ kd u, u ≠ t → (s.xs (s.tasks t).xfer).slotOf kd = some u → x'.slotOf kd = some u) :
+    Inv { s with tasks := upd s.tasks t tk', xs := upd s.xs (s.tasks t).xfer x' } := by
+  have htasks : ∀ u, u ≠ t → upd s.tasks t tk' u = s.tasks u := fun u hu => upd_other _ _ hu
+  have hme : (upd s.tasks t tk' t).live = false := by rw [upd_same]; exact hdead'
+  constructor
+  · intro u hu
+    show (upd s.tasks t tk' u).live = false
+    by_cases e : u = t
+    · subst e; exact hme
+    · rw [htasks u e]; exact h.fresh u hu
+  · intro u hl
+    change (upd s.tasks t tk' u).live = true at hl
+    show (upd s.tasks t tk' u).xfer < s.nx
+    by_cases e : u = t
+    · subst e; rw [hme] at hl; cases hl
+    · rw [htasks u e] at hl ⊢; exact h.bound u hl
+  · intro u hl
+    change (upd s.tasks t tk' u).live = true at hl
+    show (upd s.xs (s.tasks t).xfer x' (upd s.tasks t tk' u).xfer).slotOf (upd s.tasks t tk' u).kind = some u
+    by_cases e : u = t
+    · subst e; rw [hme] at hl; cases hl
+    · rw [htasks u e] at hl ⊢
+      by_cases ex : (s.tasks u).xfer = (s.tasks t).xfer
+      · rw [ex, upd_same]
+        have := h.single u hl
+        rw [ex] at this
+        exact hslot _ u e this
+      · rw [upd_other _ _ ex]; exact h.single u hl
+  · intro k hk u hl hxf
+    change (upd s.tasks t tk' u).live = true at hl
+    change (upd s.tasks t tk' u).xfer = k at hxf
+    change (upd s.xs (s.tasks t).xfer x' k).locked ≠ none at hk
+    show u ∈ (upd s.xs (s.tasks t).xfer x' k).waitFor
+    by_cases e : u = t
+    · subst e; rw [hme] at hl; cases hl
+    · rw [htasks u e] at hl hxf
+      by_cases ek : k = (s.tasks t).xfer
+      · subst ek
+        rw [upd_same] at hk ⊢
+        rw [hkeep.1] at hk; rw [hkeep.2.1]
+        exact h.waits _ hk u hl hxf
+      · rw [upd_other _ _ ek] at hk ⊢
+        exact h.waits k hk u hl hxf
+  · intro k hq u hl
+    change (upd s.tasks t tk' u).live = true at hl
+    change (upd s.xs (s.tasks t).xfer x' k).quiet = true at hq
+    show (upd s.tasks t tk' u).xfer ≠ k
+    by_cases e : u = t
+    · subst e; rw [hme] at hl; cases hl
+    · rw [htasks u e] at hl ⊢
+      by_cases ek : k = (s.tasks t).xfer
+      · subst ek; rw [upd_same, hkeep.2.2.1] at hq; exact h.quietDead _ hq u hl
+      · rw [upd_other _ _ ek] at hq; exact h.quietDead k hq u hl
+  · intro k hq
+    change (upd s.xs (s.tasks t).xfer x' k).quiet = true at hq
+    show (upd s.xs (s.tasks t).xfer x' k).removed = true ∨ (upd s.xs (s.tasks t).xfer x' k).st = .aborted ∨
+      (upd s.xs (s.tasks t).xfer x' k).st = .paused
+    by_cases ek : k = (s.tasks t).xfer
+    · subst ek; rw [upd_same] at hq ⊢; rw [hkeep.2.2.1] at hq; rw [hkeep.2.2.2.1, hkeep.2.2.2.2]; exact h.quietSt _ hq
+    · rw [upd_other _ _ ek] at hq ⊢; exact h.quietSt k hq
 
 theorem inv_doneCallback {s : TS} (h : Inv s) (t : Nat) : Inv (step s (.doneCallback t)) := by
   simp only [step]
   split
-  · rename_i hp
-    have hdead : (s.tasks t).live = false := by
-      cases hl : (s.tasks t).live
-      · rfl
-      · rcases live_phase.mp hl with h1 | h1 <;> rw [hp] at h1 <;> cases h1
-    -- abbreviations
-    generalize hx' : (match (s.tasks t).kind with
-      | .queueRemotely => if (s.xs (s.tasks t).xfer).rqSlot = some t then { s.xs (s.tasks t).xfer with rqSlot := none } else s.xs (s.tasks t).xfer
-      | _ => if (s.xs (s.tasks t).xfer).ttSlot = some t then { s.xs (s.tasks t).xfer with ttSlot := none } else s.xs (s.tasks t).xfer) = x'
-    have hkeep : x'.locked = (s.xs (s.tasks t).xfer).locked ∧ x'.waitFor = (s.xs (s.tasks t).xfer).waitFor ∧
-        x'.quiet = (s.xs (s.tasks t).xfer).quiet ∧ x'.removed = (s.xs (s.tasks t).xfer).removed ∧
-        x'.st = (s.xs (s.tasks t).xfer).st := by
-      subst hx'; split <;> split <;> exact ⟨rfl, rfl, rfl, rfl, rfl⟩
-    have hslot : ∀ kd u, u ≠ t → (s.xs (s.tasks t).xfer).slotOf kd = some u → x'.slotOf kd = some u := by
-      intro kd u hu hs
-      subst hx'
+  · refine inv_done_generic h t _ ?_ _ ?_ ?_
+    · simp [Task.live]
+    · split <;> split <;> exact ⟨rfl, rfl, rfl, rfl, rfl⟩
+    · intro kd u hu hs
       cases kd <;> split <;> simp only [XT.slotOf] at hs ⊢ <;> split <;> simp_all
-    have htasks : ∀ u, u ≠ t → upd s.tasks t { s.tasks t with phase := .gone } u = s.tasks u := fun u hu => upd_other _ _ hu
-    have hme : (upd s.tasks t { s.tasks t with phase := Phase.gone } t).live = false := by simp [Task.live]
-    constructor
-    · intro u hu
-      by_cases e : u = t
-      · subst e; exact hme
-      · rw [htasks u e]; exact h.fresh u hu
-    · intro u hl
-      by_cases e : u = t
-      · subst e; rw [hme] at hl; cases hl
-      · rw [htasks u e] at hl ⊢; exact h.bound u hl
-    · intro u hl
-      by_cases e : u = t
-      · subst e; rw [hme] at hl; cases hl
-      · rw [htasks u e] at hl ⊢
-        show (upd s.xs (s.tasks t).xfer x' (s.tasks u).xfer).slotOf (s.tasks u).kind = some u
-        by_cases ex : (s.tasks u).xfer = (s.tasks t).xfer
-        · rw [ex, upd_same]
-          have := h.single u hl
-          rw [ex] at this
-          exact hslot _ u e this
-        · rw [upd_other _ _ ex]; exact h.single u hl
-    · intro k hk u hl hxf
-      by_cases e : u = t
-      · subst e; rw [hme] at hl; cases hl
-      · rw [htasks u e] at hl hxf
-        show u ∈ (upd s.xs (s.tasks t).xfer x' k).waitFor
-        by_cases ek : k = (s.tasks t).xfer
-        · subst ek
-          change (upd s.xs (s.tasks t).xfer x' (s.tasks t).xfer).locked ≠ none at hk
-          rw [upd_same] at hk ⊢
-          rw [hkeep.1] at hk; rw [hkeep.2.1]
-          exact h.waits _ hk u hl hxf
-        · change (upd s.xs (s.tasks t).xfer x' k).locked ≠ none at hk
-          rw [upd_other _ _ ek] at hk ⊢
-          exact h.waits k hk u hl hxf
-    · intro k hq u hl
-      by_cases e : u = t
-      · subst e; rw [hme] at hl; cases hl
-      · rw [htasks u e] at hl ⊢
-        change (upd s.xs (s.tasks t).xfer x' k).quiet = true at hq
-        by_cases ek : k = (s.tasks t).xfer
-        · subst ek; rw [upd_same, hkeep.2.2.1] at hq; exact h.quietDead _ hq u hl
-        · rw [upd_other _ _ ek] at hq; exact h.quietDead k hq u hl
-    · intro k hq
-      change (upd s.xs (s.tasks t).xfer x' k).quiet = true at hq
-      show (upd s.xs (s.tasks t).xfer x' k).removed = true ∨ (upd s.xs (s.tasks t).xfer x' k).st = .aborted ∨
-        (upd s.xs (s.tasks t).xfer x' k).st = .paused
-      by_cases ek : k = (s.tasks t).xfer
-      · subst ek; rw [upd_same] at hq ⊢; rw [hkeep.2.2.1] at hq; rw [hkeep.2.2.2.1, hkeep.2.2.2.2]; exact h.quietSt _ hq
-      · rw [upd_other _ _ ek] at hq ⊢; exact h.quietSt k hq
   · exact h
 
 theorem mem_liveIn {s : TS} {o : Option Nat} {t : Nat} (ho : o = some t) (hl : (s.tasks t).live = true) : t ∈ liveIn s o := by
@@ -444,7 +458,7 @@ theorem inv_callResume {s : TS} (h : Inv s) (k : Nat) : Inv (step s (.callResume
         · subst e
           rw [upd_same]
           cases hr : (s.xs j).removed
-          · simp only [hr, Bool.false_or, if_false, Bool.false_eq_true]
+          · simp only [Bool.false_or, if_false, Bool.false_eq_true]
             by_cases hp : c = .pause
             · exact Or.inr (Or.inr (by simp [hp]))
             · exact Or.inr (Or.inl (by simp [hp]))
